@@ -1,5 +1,6 @@
 SPECIFICATION Spec
 CONSTANTS MaxLen = 4
+EmitMod = 4
 Emit = TRUE
 Alphabet <- AlphaThorough
 INVARIANTS TypeOK DesignRefinesInfoset EmitCase
